@@ -77,6 +77,8 @@ package unixfsnode
 //@ at call file.NewUnixFSFile#1 assert reifies-the-node-it-was-given: callee_substrate == substrate && callee_lsys == ls
 //@ func unixfsnode.unixFSFileReifierWithPreload
 //@ prop C14 C06
+//@ calls file.NewUnixFSFileWithPreload
+//@ forbids file.NewUnixFSFile
 //@ at call file.NewUnixFSFileWithPreload#1 assert reifies-the-node-it-was-given: callee_substrate == substrate && callee_lsys == ls
 
 // C02 / C15: the reported length is the number of links, and the link iterator behind MapIterator()
